@@ -35,6 +35,11 @@ CLAIMED["C07"] = ("ovf-codec+ovf-fuzz", "exploration",
   "Arbitrary bytes x segmentation x ending are fed with FramedRead's calling convention to every network-facing decoder of server, client and local side; the sealed-malformed family seals generated malformed plaintexts under the correct key to reach the parsing behind authentication. Oracle: no panic, valid UTF-8 domain names, result is Err/None/item. Exhaustive for inputs of length <= 1, a grid of length 2 and all prefixes of one valid message per decoder. Exploration: absence of crashes is not proven.",
   "Trusted: panic hook + catch_unwind as crash detector (aborts would kill the check: reported as exit 2), reference sealing.", "DESIGN.md 5/C07")
 
+CLAIMED["C10"] = ("ovf-codec", "exploration",
+  "model-based property testing under a controlled clock: reference-built handshakes with one generated field each vs the acceptance model; replay histories vs a set model; barrier-released concurrent copies; one real-time expiry probe (thorough)",
+  "Reference-built 2022 requests/responses/datagrams and VMess auth-ids/responses with generated timestamps (both sides of the 30 s / 120 s boundaries, extremes), type bytes, request-salt echoes, response bytes and keys are presented to the real decoders under a pinned clock; the accept/reject decision must equal the model in the property statement. Histories of repeated presentations at moving clock offsets are compared with a 'set of accepted salts' model; K concurrently presented copies must yield exactly one acceptance; the thorough tier replays a request 31 s of real time after acceptance. Exploration.",
+  "Trusted: clock hook (pins aead_2022::now / vmess::now per thread), reference encoder. The machine's scheduler decides which interleavings the concurrent sub-check sees.", "DESIGN.md 5/C10")
+
 PENDING = {}
 
 def main():
